@@ -115,7 +115,7 @@ NUM_CARRIERS = ["sub_both", "sub_both2", "assign", "assign_elem", "sub_rhs", "su
                 "for_limit", "for_step", "print_item", "print_at_pos", "on_sel", "dev_cls", "dev_hline", "dev_sound",
                 "dev_hcircle", "dev_poke", "read_sub", "input_sub", "loop_body", "jump_target", "two_statements", "width",
                 "assign_raw", "assign_elem_raw", "print_raw", "print_item_raw", "print_at_raw", "print_last_raw", "print_many",
-                "varptr_sub", "varptr_sub2"]
+                "varptr_sub", "varptr_sub2", "if_nested_false", "if_nested_true", "if_nested_deep"]
 STR_CARRIERS = ["assign_s", "assign_elem_s", "print_item_s", "print_at_item_s", "if_s_noelse", "if_s_else", "dev_hprint",
                 "dev_hdraw", "loop_body_s", "len_assign"]
 
@@ -160,6 +160,16 @@ def carrier(name, e):
         return one([("let", R, ("arr", "X", [("bin", "AND", e, n(7))]), False)])
     if name == "sub_lhs":
         return one([("let", ("arr", "Y", [("bin", "AND", e, n(7))]), n(77), False)])
+    if name == "if_nested_false":
+        # IF without ELSE directly inside IF without ELSE: when the outer condition is false nothing of the inner one runs
+        return one([("let", R, n(2), False), ("if", ("bin", "<", A, n(0)),
+                                                ("stmts", [("if", ("bin", ">", e, n(1)), ("stmts", [("let", R, n(1), False)]), [], None)]), [], None)])
+    if name == "if_nested_true":
+        return one([("let", R, n(2), False), ("if", ("bin", ">", A, n(0)),
+                                                ("stmts", [("if", ("bin", ">", e, n(1)), ("stmts", [("let", R, n(1), False)]), [], None)]), [], None)])
+    if name == "if_nested_deep":
+        return one([("let", R, n(2), False), ("if", ("bin", ">", A, n(0)), ("stmts", [("if", ("bin", "<", B, n(0)), ("stmts", [
+            ("if", ("bin", ">", e, n(1)), ("stmts", [("let", R, n(1), False)]), [], None)]), [], None)]), [], None)])
     if name == "if_noelse":
         return one([("let", R, n(2), False), ("if", ("bin", ">", e, n(1)), ("stmts", [("let", R, n(1), False)]), [], None)])
     if name == "if_else":
